@@ -46,7 +46,7 @@ def _cases(tier, rng):
         prog = progs.gen_map_program(rng, n_funcs=rng.randint(1, 3), allow_generator=(rng.random() < 0.5),
                                      sizes_pool=(1, 2, 3) if rng.random() < 0.7 else (2, 2, 3))
         yield {"prog": prog, "load_intermediate": rng.random() < 0.6, "rerun": rng.random() < 0.25,
-               "storage": rng.choice(("file_array", "file_array", "dict"))}
+               "storage": rng.choice(("file_array", "file_array", "dict")), "archive": rng.random() < 0.5}
     # several outputs without a MapSpec that are plain arrays of different shapes (each needs dimensions of its own)
     for shapes in (((3, 3), (2, 3)), ((2, 2), (2, 2)), ((2, 3), (3,)), ((1, 2), (2, 1))):
         prog = {"funcs": [{"name": f"f{k}", "params": [], "outputs": [nm], "spec": None, "internal": shp,
@@ -95,7 +95,7 @@ def _ds_summary(ds):
     return out
 
 
-def _second_run_same_folder(p, prog, folder, li, storage="file_array"):
+def _second_run_same_folder(p, prog, folder, li, storage="file_array", first=None):
     """A run folder is reused by a second run with other input values (same shapes): the dataset loaded afterwards
     belongs to the second run, and again agrees with the dataset built from its results."""
     import numpy as np
@@ -114,6 +114,10 @@ def _second_run_same_folder(p, prog, folder, li, storage="file_array"):
             inputs2[n] = prime(v)
         else:
             inputs2[n] = f"{v}'"
+    archive = None
+    if first is not None:  # the first run is kept under another name before its path is reused
+        archive = folder.rstrip("/") + "_archived"
+        shutil.copytree(folder, archive)
     try:
         res2 = p.map(inputs2, run_folder=folder, parallel=False, storage=storage, **progs.map_kwargs(prog))
         a = _ds_summary(xarray_dataset_from_results(inputs2, res2, p, load_intermediate=li))
@@ -123,6 +127,21 @@ def _second_run_same_folder(p, prog, folder, li, storage="file_array"):
     if a != b:
         d = {k: (a["vars"].get(k), b["vars"].get(k)) for k in set(a["vars"]) | set(b["vars"]) if a["vars"].get(k) != b["vars"].get(k)}
         return [f"after a second run into the same folder load_xarray_dataset does not show that run: {str(d)[:260]}"]
+    if archive is not None:
+        # whichever run the archived copy resolves to: its values and its labels belong to one and the same run, and
+        # looking at it does not change what the reused folder shows
+        try:
+            c = _ds_summary(load_xarray_dataset(run_folder=archive, load_intermediate=li))
+            b2 = _ds_summary(load_xarray_dataset(run_folder=folder, load_intermediate=li))
+        except Exception as e:  # noqa: BLE001
+            return [f"loading the archived copy of the first run: {type(e).__name__}: {str(e)[:140]}"]
+        finally:
+            shutil.rmtree(archive, ignore_errors=True)
+        if c != first and c != a:
+            return [f"the archived copy of the first run shows a dataset that is neither run's: coords {str(c['coords'])[:120]} "
+                    f"vars {str(c['vars'])[:160]}"]
+        if b2 != a:
+            return ["after the archived copy was loaded, the reused folder no longer shows its own (second) run"]
     return []
 
 
@@ -250,7 +269,8 @@ def _check(case):
                                        f"computed from that input value is {progs.fz(expect)[:100]}")
                         break
         if not bad and case.get("rerun"):
-            bad += _second_run_same_folder(p, prog, folder, li, case.get("storage", "file_array"))
+            bad += _second_run_same_folder(p, prog, folder, li, case.get("storage", "file_array"),
+                                           first=s2 if case.get("archive") else None)
         return bad[:6]
     finally:
         shutil.rmtree(folder, ignore_errors=True)
